@@ -316,4 +316,5 @@ func TestRegress(t *testing.T) { run.Regress(t, spec) }
 func TestReplay(t *testing.T) {
 	run.ReplayOne(t, spec)
 	run.ReplayOne(t, eSpec)
+	run.ReplayOne(t, concSpec)
 }
